@@ -69,6 +69,8 @@ E_POOL = {
     "unary-minus-min": "-(-9223372036854775807 - 1) == 1",
     "ternary-bad-condition": "(vone ? true : false)",
     "no-argument": "dyn() == 1",
+    "error-in-reduce-macro": "[0].reduce(r, i, 0, 1 / i) > 0",
+    "min-of-mixed-list": "[1, 'a'].min() == 1",
 }
 N_POOL = ["1", "'s'", "[]", "null", "1.5", "{}"]
 BINDINGS = {"vt": ct.BoolType(True), "vf": ct.BoolType(False), "vone": ct.IntType(1)}
